@@ -30,6 +30,7 @@ INVERSE_PAIRS = [('compatibility.generate_ctrlptsw', 'compatibility.generate_ctr
                  ('compatibility.generate_ctrlptsw2d', 'compatibility.generate_ctrlpts2d_weights'),
                  ('compatibility.combine_ctrlpts_weights', 'compatibility.separate_ctrlpts_weights')]
 DECIDES += (' [ABSTRACT INTERPRETATION, exact, on the real classes] WS5: the three control point views agree after every assignment through the real accessors (ctrlptsw / ctrlpts / weights, warm and cold caches, lists edited in place and assigned back, sizes in axis order); CV4: bspline_to_nurbs / nurbs_to_bspline give a new shape with the definition of the source direction by direction, the same normalisation setting, the source untouched, and refuse a shape with one weight of 2 or 1/2 anywhere; CK3: every cache key a class reads exists, empty and unshared, on a new object and on its deep copy.')
+DECIDES += (' GW2: CPGen.GridWeighted through generate / weight / grid / generate again on symbolic extents: every read is the current grid times the current weights; SC2: control points are stored as given for every precision; OWN2: two new objects of a class share no list or dictionary (class-level attributes evaluated once).')
 
 
 def site(fi, node=None):
